@@ -437,21 +437,26 @@ impl Space for ByName {
                 built.patch(&format!("shdr[{}].sh_name", i + 1), 0xfff0);
             }
         }
-        // ground truth: section index -> name string (None when it has none)
-        let mut truth: Vec<Option<String>> = vec![Some(String::new())];
-        for k in &choice {
-            truth.push(if *k < NAMES.len() { std::str::from_utf8(NAMES[*k]).ok().map(|s| s.to_string()) } else { None });
-        }
-        truth.push(Some(".shstrtab".into()));
+        // ground truth from the bytes: section index -> name string (None when the name offset has no
+        // terminated, valid UTF-8 string in the name table)
+        let nsec_total = built.shnum;
+        let (st_off, st_size) = built.sec_range(built.shstrndx);
+        let shsz = layout(Kind::Shdr, enc.class).size;
+        let name_offsets: Vec<usize> = (0..nsec_total).map(|i| refmodel::layout::get(&built.bytes, built.shoff + i * shsz, 4, enc.order) as usize).collect();
+        let truth_of = |bytes: &[u8]| -> Vec<Option<String>> {
+            let tab = &bytes[st_off as usize..(st_off + st_size) as usize];
+            name_offsets
+                .iter()
+                .map(|o| {
+                    if *o >= tab.len() {
+                        return None;
+                    }
+                    let e = tab[*o..].iter().position(|x| *x == 0)?;
+                    std::str::from_utf8(&tab[*o..*o + e]).ok().map(|s| s.to_string())
+                })
+                .collect()
+        };
         let mut dig = Fnv::new();
-        // a query with an interior NUL can never equal a section name: it spells out adjacent entries
-        let mut queries: Vec<String> = QUERIES.iter().map(|s| s.to_string()).collect();
-        for w in truth.windows(2) {
-            if let (Some(a), Some(b)) = (&w[0], &w[1]) {
-                queries.push(format!("{a}\0{b}"));
-                queries.push(format!("{a}\0"));
-            }
-        }
         // the same object once more with the section-name table announced through the SHN_XINDEX
         // escape (e_shstrndx = 0xffff, shdr[0].sh_link = index, shdr[0].sh_info = another valid index)
         let strndx = built.shstrndx as u64;
@@ -463,7 +468,20 @@ impl Space for ByName {
                 refmodel::layout::put(&mut escaped, st.off, st.width, enc.order, v);
             }
         }
-        for (variant, bytes) in [("", &built.bytes), (" (name table through SHN_XINDEX)", &escaped)] {
+        // and once with a name table whose first byte is not NUL: offset 0 then names a real string
+        let mut no_nul = built.bytes.clone();
+        no_nul[st_off as usize] = b'Q';
+        for (variant, bytes) in [("", &built.bytes), (" (name table through SHN_XINDEX)", &escaped), (" (name table without a leading NUL)", &no_nul)] {
+            let truth = truth_of(bytes);
+            // a query with an interior NUL can never equal a section name: it spells out adjacent entries
+            let mut queries: Vec<String> = QUERIES.iter().map(|s| s.to_string()).collect();
+            queries.extend(truth.iter().flatten().cloned());
+            for w in truth.windows(2) {
+                if let (Some(a), Some(b)) = (&w[0], &w[1]) {
+                    queries.push(format!("{a}\0{b}"));
+                    queries.push(format!("{a}\0"));
+                }
+            }
         for q in queries.iter().map(|s| s.as_str()) {
             let want = truth.iter().position(|t| t.as_deref() == Some(q));
             out.transitions += 2;
